@@ -486,8 +486,9 @@ func genScenCase(r *vf.Run) func(t *rapid.T) ScenCase {
 			for i := 0; i < n; i++ {
 				name, reject := applyStruct(t, &m, c.Files, avoid)
 				c.StructOps = append(c.StructOps, name)
-				if reject != "" && c.MustReject == "" {
+				if reject != "" {
 					c.MustReject = reject
+					break // a later mutation could undo what makes the description malformed
 				}
 			}
 		}
@@ -497,10 +498,7 @@ func genScenCase(r *vf.Run) func(t *rapid.T) ScenCase {
 			c.Text = sg.RenderHCL(m)
 		}
 		if strings.HasSuffix(origin, "bytes") {
-			save := hostileNumbers
-			hostileNumbers = scenNumbers
-			c.Text, c.ByteOps = mutate(t, c.Text, nil, 2)
-			hostileNumbers = save
+			c.Text, c.ByteOps = mutateWith(t, c.Text, nil, 2, scenNumbers, true)
 			c.MustReject = "" // the bytes no longer say what the model says
 		}
 		steerScen(&c, r)
@@ -772,7 +770,7 @@ func dryShootGRPC(s *grpcscen.Scenario) {
 func TestF6Scenario(t *testing.T) {
 	pand.Init()
 	r := vf.Start(t, "C13")
-	vf.Check(r, genScenCase(r), checkScen)
+	vf.Check(r, genScenCase(r), withExcuse(r, checkScen))
 }
 
 func fuzzScen(f *testing.F, name, syntax string, constants []string) {
